@@ -156,6 +156,17 @@ func init() {
 			},
 		},
 		propCheck{
+			ID: "C44", Level: "exploration",
+			Rule: "one evaluation = one simulated multi-session history over 13 representative system variables (bool, bounded int, double, enum; both-scope, global-only, read-only) and 3 user variables: SET [SESSION|GLOBAL|default] with valid, boundary, out-of-range and wrong-type values, wrong scopes and read-only variables; SET @u = NULL / int / string / expression; sessions connect (inherit the current globals) and disconnect; after every step the touched variable is read in every scope of every session, and periodically everything is, against a model (global store + per-session store initialised from the globals + per-session user variables); non-trivial = >= 2 sessions; distinct = distinct hash of the action/outcome sequence",
+			Real: []string{"SET / SELECT @@ planning and execution", "sql.SystemVariables global registry, BaseSession system and user variable stores, system variable types' Convert"},
+			Stub: []string{"session scheduling at statement granularity"},
+			Assumptions: []string{"only the scoping / validation machinery over representatives of each system type is claimed, not 'all system variables x all values'", "an out-of-range numeric value may be rejected or adjusted into the bounds; a wrong-type value, wrong scope or read-only variable must be rejected without effect"},
+			Subs: []subCheck{
+				{ID: "C44", World: "sqlsim", Quick: 1600, Thorough: 100000, QuickCap: 90, ThoroughCap: 1500, GC: "100",
+					Probes: []string{"rejected-set", "session-drop"}},
+			},
+		},
+		propCheck{
 			ID: "C20", Level: "exploration",
 			Rule: "one evaluation = one simulated history on a table with an AUTO_INCREMENT primary key (INT / BIGINT / INT UNSIGNED / TINYINT UNSIGNED, optional UNIQUE key for failing inserts): multi-row inserts mixing NULL / 0 / omitted / explicit ids (above the maximum, unused below it, existing), inserts failing at a drawn row, injected storage errors, deletes of the maximum row and of everything, ALTER TABLE .. AUTO_INCREMENT = n below and above the maximum, BEGIN/COMMIT/ROLLBACK, session drops, 1-2 sessions with never-overlapping writers; oracle: every generated and stored value is unique among all generated values ever stored, greater than every value stored before the statement, increasing inside a statement; OkResult.InsertID and LAST_INSERT_ID() = first generated value of the session's last successful generating insert, unchanged by failed inserts and by other sessions; non-trivial = 2 sessions or a fault fired; distinct = distinct hash of the action/outcome sequence",
 			Real: []string{"insert iterator auto-increment handling, accumulator OK result", "memory table editor auto-increment counter, ALTER TABLE AUTO_INCREMENT"},
